@@ -1136,13 +1136,14 @@ func compileGenericForStmt(context *funcContext, stmt *ast.GenericForStmt) { // 
 	nnames := len(stmt.Names)
 
 	context.EnterBlock(endlabel, stmt)
+	// the explist initialises the three hidden variables (missing values are nil), not the loop variables.
+	// It is compiled like the right-hand side of `local gen, state, control = explist`, i.e. before those
+	// variables are registered, so that the temporaries of the expressions are allocated above them
+	hidden := []string{"(for generator)", "(for state)", "(for control)"}
+	compileRegAssignment(context, hidden, stmt.Exprs, context.RegTop(), 3, sline(stmt))
 	rgen := context.RegisterLocalVar("(for generator)")
 	context.RegisterLocalVar("(for state)")
 	context.RegisterLocalVar("(for control)")
-
-	// the explist initialises the three hidden variables (missing values are nil), not the loop variables
-	hidden := []string{"(for generator)", "(for state)", "(for control)"}
-	compileRegAssignment(context, hidden, stmt.Exprs, context.RegTop()-3, 3, sline(stmt))
 
 	code.AddASbx(OP_JMP, 0, fllabel, sline(stmt))
 
